@@ -66,6 +66,11 @@ print("##JSON##" + json.dumps(out))
 
 def run(ctx):
     r = ctx.rng
+    # the stand-alone lp / socp / gcp layers: declare, formulate (primal and dual), declare one more constraint, formulate again
+    # == the same declarations formulated once (the standard form is a function of what was declared, not of when it was asked for)
+    from harness.props import c09 as _c09
+    for k in range(ctx.n(40, 600)):
+        _c09.direct_layers(ctx, int(r.integers(2 ** 31)))
     specs = []
     for k in range(ctx.n(45, 900)):
         kind = str(r.choice(['ro', 'dro', 'det']))
@@ -229,4 +234,9 @@ def user_data(ctx):
 
 
 def replay(rp):
+    if 'layer' in rp['case'] and 'then' in rp['case']:
+        from harness.props import c09 as _c09
+        ctx = C.Ctx('C19', 'quick', 0)
+        _c09.direct_layers(ctx, rp['case']['seed'])
+        return {"hits": [(h['key'], h['detail']) for h in ctx.hits], "fails": bool(ctx.hits)}
     return {"fails": True, "case": rp['case'], "note": "re-run bin/check C19 with the recorded seed"}
